@@ -1,41 +1,61 @@
 ------------------------------ MODULE CtiWrap ------------------------------
 (***************************************************************************)
-(* C18 (wrapping) - pmutt.io.cantera.obj_to_cti as a state machine.        *)
+(* C18 (wrapping) - pmutt.io.cantera.obj_to_cti as a state machine over    *)
+(* HISTORIES of calls on one value object.                                 *)
 (*                                                                         *)
 (* A token is <<position, length>> (the position makes tokens distinct, so *)
-(* a reordering or a duplication is visible; only lengths matter to the    *)
-(* algorithm).  State: the caller's token list `input`, the widths         *)
-(* (ll = line_len for the first line, ml = max_line_len for the others),   *)
-(* and the progress of the greedy filling: `k` tokens placed into `lines`  *)
-(* (CtiLayout line records).  Actions: AddToken (the caller extends the    *)
-(* value), Start (the public call: one-line form "..." when the content is *)
-(* shorter than ll - 2, else open the """ form), Place (next token), Close *)
-(* (the closing """ is placed like a token).                               *)
+(* a reordering, a duplication or a foreign token is visible; only lengths *)
+(* matter to the algorithm).                                               *)
+(* State:                                                                  *)
+(*   input  the caller's value object (token lengths).  It PERSISTS across *)
+(*          calls: AddToken / Wrap / Wrap again (other widths) / AddToken  *)
+(*          / Wrap ... are all behaviours of this machine.                 *)
+(*   orig   ghost: the value as the caller built it (only AddToken changes *)
+(*          it).  Every call is judged against `orig`.                     *)
+(*   ll, ml line_len / max_line_len of the call in progress (0 when idle)  *)
+(*   phase  "idle" | "wrap" | "done";  k, lines: progress of the filling   *)
+(* Actions: AddToken (caller, idle only), Start(l, m) (the public call     *)
+(* begins: one-line form "..." when the content is shorter than l - 2,     *)
+(* else open the """ form), Place (next token), Close (the closing """ is  *)
+(* placed like a token), Return (the call ends; the transient is cleared,  *)
+(* the value object stays).                                                *)
 (*                                                                         *)
-(* Variant "greedy" is the algorithm of the code: the first token always   *)
-(* goes on line 1; a token joins the current line iff                      *)
-(* len(line) + 1 + len(token) <= limit(line); a new line starts with       *)
-(* max(0, ml - ll + 3) blanks.  Variant "onelimit" (the first line is      *)
-(* filled to ml like the others) is a wrong algorithm kept to show that    *)
-(* WidthRespected is not vacuous: EXPECTED TO BE REJECTED.                 *)
-(* Invariants: at every step the placed tokens are preserved in order and  *)
-(* every over-long line holds exactly one word; when done, all tokens are  *)
-(* there and the value is delimited (CtiLayout!WrapVerdict = {}).          *)
+(* Variant "greedy" is the algorithm of the code: it works on a private    *)
+(* copy of the tokens; the first token always goes on line 1; a token      *)
+(* joins the current line iff len(line) + 1 + len(token) <= limit(line); a *)
+(* new line starts with max(0, ml - ll + 3) blanks.                        *)
+(* Wrong variants kept to show the properties are not vacuous, each        *)
+(* EXPECTED TO BE REJECTED:                                                *)
+(*   "onelimit" the first line is filled to ml like the others             *)
+(*              (WidthOK);                                                 *)
+(*   "alias"    the algorithm uses the caller's list object as its token   *)
+(*              list and appends the closing marker to it: the first call  *)
+(*              returns the right text but changes the caller's value      *)
+(*              (InputUntouched), and the next call on the same object     *)
+(*              carries the marker as a token (DoneOK: TokensPreserved).   *)
+(* Properties: InputUntouched - no step of a call changes `input` (action  *)
+(* property); at every step the placed tokens are the caller's, in order,  *)
+(* and every over-long line holds exactly one word; when a call is done,   *)
+(* CtiLayout!WrapVerdict against `orig` is empty - on EVERY call of a      *)
+(* history, because `input`/`orig` survive Return.                         *)
 (***************************************************************************)
 EXTENDS CtiLayout, TLC
 
 CONSTANTS TokLens, MaxToks, LineLens, MaxLineLens, Variant
 
-VARIABLES input, ll, ml, phase, k, lines
-vars == <<input, ll, ml, phase, k, lines>>
+VARIABLES input, orig, ll, ml, phase, k, lines
+vars == <<input, orig, ll, ml, phase, k, lines>>
 
-Tok(i) == <<i, input[i]>>
-AllToks == [i \in 1..Len(input) |-> Tok(i)]
+TokOf(s, i) == <<i, s[i]>>
+ToksOf(s) == [i \in 1..Len(s) |-> TokOf(s, i)]
+OrigToks == ToksOf(orig)
 RECURSIVE SumLens(_, _)
 SumLens(s, i) == IF i > Len(s) THEN 0 ELSE s[i] + SumLens(s, i + 1)
 ContentLen(s) == IF Len(s) = 0 THEN 0 ELSE SumLens(s, 1) + Len(s) - 1      \* ' '.join(tokens)
 Indent(l, m) == IF m - l + 3 > 0 THEN m - l + 3 ELSE 0
 FillLimit(v, nline, l, m) == IF v = "onelimit" THEN m ELSE Limit(nline, l, m)
+\* "alias": the closing marker sits at the end of the caller's list while a call runs
+NPlace == IF Variant = "alias" THEN Len(input) - 1 ELSE Len(input)
 
 \* place one word of length wl carrying `toks` (<<>> for the closing delimiter)
 PlaceWord(v, ls, first, wl, toks, l, m) ==
@@ -46,36 +66,48 @@ PlaceWord(v, ls, first, wl, toks, l, m) ==
         THEN [ls EXCEPT ![n] = [len |-> cur.len + wl + 1, words |-> cur.words \o toks, nw |-> cur.nw + 1]]
         ELSE Append(ls, [len |-> Indent(l, m) + wl, words |-> toks, nw |-> 1])
 
-Init == /\ input = <<>> /\ ll \in LineLens /\ ml \in MaxLineLens
-        /\ phase = "build" /\ k = 0 /\ lines = <<>>
-AddToken(t) == /\ phase = "build" /\ Len(input) < MaxToks
-               /\ input' = Append(input, t)
+Init == /\ input = <<>> /\ orig = <<>> /\ ll = 0 /\ ml = 0
+        /\ phase = "idle" /\ k = 0 /\ lines = <<>>
+AddToken(t) == /\ phase = "idle" /\ Len(orig) < MaxToks
+               /\ input' = Append(input, t) /\ orig' = Append(orig, t)
                /\ UNCHANGED <<ll, ml, phase, k, lines>>
-Start == /\ phase = "build"
-         /\ IF ContentLen(input) < ll - 2
-            THEN /\ phase' = "done"
-                 /\ lines' = <<[len |-> ContentLen(input) + 2, words |-> AllToks, nw |-> Len(input)]>>
-                 /\ k' = Len(input)
-            ELSE /\ phase' = "wrap"
-                 /\ lines' = <<[len |-> 3, words |-> <<>>, nw |-> 0]>>
-                 /\ k' = 0
-         /\ UNCHANGED <<input, ll, ml>>
-Place == /\ phase = "wrap" /\ k < Len(input)
-         /\ lines' = PlaceWord(Variant, lines, k = 0, input[k + 1], <<Tok(k + 1)>>, ll, ml)
+Start(l, m) ==
+   /\ phase = "idle" /\ Len(input) <= MaxToks + 1        \* bound for the aliasing variant
+   /\ ll' = l /\ ml' = m
+   /\ IF ContentLen(input) < l - 2
+      THEN /\ phase' = "done"
+           /\ lines' = <<[len |-> ContentLen(input) + 2, words |-> ToksOf(input), nw |-> Len(input)]>>
+           /\ k' = Len(input)
+           /\ input' = input
+      ELSE /\ phase' = "wrap"
+           /\ lines' = <<[len |-> 3, words |-> <<>>, nw |-> 0]>>
+           /\ k' = 0
+           /\ input' = IF Variant = "alias" THEN Append(input, 3) ELSE input   \* cti_list.append('"""')
+   /\ UNCHANGED orig
+Place == /\ phase = "wrap" /\ k < NPlace
+         /\ lines' = PlaceWord(Variant, lines, k = 0, input[k + 1], <<TokOf(input, k + 1)>>, ll, ml)
          /\ k' = k + 1
-         /\ UNCHANGED <<input, ll, ml, phase>>
-Close == /\ phase = "wrap" /\ k = Len(input)
+         /\ UNCHANGED <<input, orig, ll, ml, phase>>
+Close == /\ phase = "wrap" /\ k = NPlace
          /\ lines' = PlaceWord(Variant, lines, k = 0, 3, <<>>, ll, ml)
          /\ phase' = "done"
-         /\ UNCHANGED <<input, ll, ml, k>>
-Next == (\E t \in TokLens : AddToken(t)) \/ Start \/ Place \/ Close
+         /\ UNCHANGED <<input, orig, ll, ml, k>>
+Return == /\ phase = "done"
+          /\ phase' = "idle" /\ ll' = 0 /\ ml' = 0 /\ k' = 0 /\ lines' = <<>>
+          /\ UNCHANGED <<input, orig>>
+Next == \/ \E t \in TokLens : AddToken(t)
+        \/ \E l \in LineLens, m \in MaxLineLens : Start(l, m)
+        \/ Place \/ Close \/ Return
 Spec == Init /\ [][Next]_vars
 
 \* ---- properties -------------------------------------------------------------
-PlacedPreserved == phase # "build" => Flatten(lines) = SubSeq(AllToks, 1, k)
-WidthOK == phase # "build" => WidthRespected(lines, ll, ml)
-DoneOK == phase = "done" => WrapVerdict(AllToks, ll, ml, TRUE, lines) = {}
-TypeOK == /\ input \in Seq(TokLens) /\ phase \in {"build", "wrap", "done"} /\ k \in 0..MaxToks
+\* only the caller (AddToken: idle -> idle) may change the value object
+InputUntouched == [][~(phase = "idle" /\ phase' = "idle") => input' = input]_vars
+PlacedPreserved == phase # "idle" => /\ k <= Len(orig)
+                                     /\ Flatten(lines) = SubSeq(OrigToks, 1, k)
+WidthOK == phase # "idle" => WidthRespected(lines, ll, ml)
+DoneOK == phase = "done" => WrapVerdict(OrigToks, ll, ml, TRUE, lines) = {}
+TypeOK == /\ orig \in Seq(TokLens) /\ phase \in {"idle", "wrap", "done"} /\ k \in 0..(MaxToks + 2)
 
 \* ---- the whole filling as one operator (reference layout for the replay) ----
 RECURSIVE Fill(_, _, _, _, _, _)
